@@ -110,6 +110,16 @@ def parse_output(out, names):
             cur_thread = m.group(1)
             i += 1
             continue
+        if ln.strip() == "CBMC failed":
+            h = thread_h.get(cur_thread, cur_name) if cur_thread is not None else cur_name
+            r = res.get(h)
+            why = " ".join(x.strip() for x in lines[i + 1:i + 4] if x.strip())
+            if r is not None:
+                r.status = "inconclusive"
+                r.reason = "CBMC failed: " + why[:200]
+            cur_thread = None
+            i += 1
+            continue
         if ln.startswith("VERIFICATION RESULT:") or ln.startswith("SUMMARY:"):
             h = thread_h.get(cur_thread, cur_name) if cur_thread is not None else cur_name
             r = res.get(h)
